@@ -35,6 +35,11 @@ check("C11", "E1 sched", "model_checking",
       "checker.CheckSource runs under the scheduler for 9 programs with colliding method bodies x MethodCheckConcurrencyLimit {1,2,3,100}; every schedule of concurrent.Foreach's goroutines, semaphore, the diagnostics mutex and concurrent containers (plus statement-level points in diagnostic.go/slice.go/map.go) with <=1 (thorough 2) preemptions is executed on the real checker and compiler, and the sorted diagnostics and the compiled program's behaviour must equal the sequential outcome.",
       "only the body-checking phase branches; unsynchronised accesses between points (e.g. the Method.Body write/read race seen by go test -race in the design round) are invisible to a cooperative scheduler; per-case wall-clock budget may end a configuration early (exhaustive:false)")
 
+check("C33", "E2 enum", "exploration",
+      "bounded-exhaustive enumeration of (non-terminating program shape x cancellation poll index) with a poll-counting context; blocking shapes additionally cancelled while blocked",
+      "20 non-terminating shapes (every loop kind, loops in methods/closures/generators/do-finally/do-catch, recursion, tail recursion) are compiled with abort checks and run with an aborter whose context closes at exactly the k-th poll, for every k in 1..40 (thorough 1..200); 7 blocking shapes (channel pop/push/for-in/select) are cancelled at poll k and by another goroutine while blocked. The run must end with ExecutionAbortedError at that poll; running on (watchdog), hanging or panicking is a violation.",
+      "cancellation time is discretised to abort polls; a hang is decided by a 40 s watchdog and a 120 s solo re-run; await of a never-settling promise is not in the space (no terminating driver without timers)")
+
 NOT_YET = "check not built yet in this round (planned, see DESIGN.md section 5)"
 NA = {}
 
